@@ -44,6 +44,8 @@ func main() {
 		code = cmdReplay(os.Args[2:])
 	case "build":
 		code = cmdBuild(os.Args[2:])
+	case "run":
+		code = cmdRun(os.Args[2:])
 	case "selftest":
 		code = cmdSelftest(os.Args[2:])
 	default:
